@@ -301,6 +301,7 @@ def run(ctx):
     gv_events = group_velocity_part(ctx, margins)
     degeneracy_part(ctx, gv_events)
     gruneisen_part(ctx, margins)
+    gruneisen_nonhydrostatic(ctx, margins)
     ctx.extra["margins"] = {k: dict(observed=v, tolerance=TOL.get(k)) for k, v in margins.items()}
 
 
@@ -970,5 +971,181 @@ def gruneisen_part(ctx, margins):
         if nm == "ObservedAll":
             raise tlcmod.MachineryError("Gruneisen: a case was not observed")
         ctx.violation("gruneisen:" + nm, "Gruneisen.tla %s fails on recorded results" % nm,
+                      dict(invariant=nm, observed=observed))
+    ctx.traces += len(observed)
+
+
+# ---------------------------------------------------------------------------------
+CFG_GRD = """SPECIFICATION Spec
+CONSTANTS
+ R = 3
+ ObservedNH <- MCObservedNH
+CHECK_DEADLOCK FALSE
+INVARIANT ReqPerModeIsEigenvalue
+INVARIANT ReqLifted
+INVARIANT InvRotationMatters
+INVARIANT ImplNH
+"""
+
+
+def gruneisen_nonhydrostatic(ctx, margins):
+    """GruneisenDegenerate.tla: 'built from the three volumes supplied' for ANY three cells.  Plus/minus cells are
+    strained uniaxially (force constants changed accordingly, with the tetragonal symmetry of the strained cell), so
+    that D(V+) - D(V-) lifts degeneracies of the cubic V0 crystal (transverse pairs on Gamma-X, Gamma-L).  Per
+    mode of every degenerate set: gamma = -<e|dD|e>/strain/lam/2 with the REPORTED eigenvector e, the reported
+    vectors diagonalise dD in the set, and the values are the first-order splittings of the eigenvalues."""
+    from phonopy import Phonopy, PhonopyGruneisen
+    from phonopy.structure.atoms import PhonopyAtoms
+
+    res0 = ctx.tlc("MC_GrD", cfg_text=CFG_GRD, requirement=True, workers=2, coverage=not ctx.quick, extra_files={
+        "MC_GrD.tla": "---- MODULE MC_GrD ----\nEXTENDS GruneisenDegenerate\nMCObservedNH == {}\n====\n"})
+    require_actions_fired(ctx, res0, "GruneisenDegenerate", ["Rotate"])
+    cases = [dict(id=1, entry="sc", S=diag(3, 3, 3), mats=[diag(3, 3, 3)], pm=None, mesh=[4, 4, 4], e=1e-3),
+             dict(id=2, entry="naclg", S=I3, mats=[I3], pm="F", mesh=[4, 4, 4], e=2e-3)]
+    if not ctx.quick:
+        cases.append(dict(id=3, entry="bcc", S=diag(2, 2, 2), mats=[diag(2, 2, 2)], pm="I", mesh=[4, 4, 4], e=1e-3))
+        cases.append(dict(id=4, entry="cscl", S=diag(2, 2, 2), mats=[diag(2, 2, 2)], pm=None, mesh=[3, 3, 3], e=1e-3))
+    observed = []
+    for cs in cases:
+        orc = Oracle(cs["entry"], cs["mats"], seed=ctx.seed * 19 + cs["id"], ctx=ctx)
+        uc = orc.unitcell()
+        L0 = np.array(uc.cell)
+        u = L0[2] / np.linalg.norm(L0[2])                  # strain axis: the third cubic axis
+        e = cs["e"]
+        fc_ref = None
+
+        def build(sign):
+            nonlocal fc_ref
+            F = np.eye(3) + sign * e * np.outer(u, u)      # uniaxial strain along u
+            cell = PhonopyAtoms(symbols=uc.symbols, scaled_positions=uc.scaled_positions, cell=L0 @ F, masses=uc.masses)
+            with quiet():
+                ph = Phonopy(cell, supercell_matrix=cs["S"], primitive_matrix=cs["pm"], log_level=0)
+            if fc_ref is None:
+                with quiet():
+                    ph_ref = Phonopy(uc, supercell_matrix=cs["S"], primitive_matrix=cs["pm"], log_level=0)
+                fc_ref = orc.supercell_fc(cs["S"], ph_ref.supercell)
+            fc = fc_ref.copy()
+            if sign:
+                # bonds along the strain axis stiffen/soften: weight 1 - 6 sign e <(u.d)^2/d^2> over the shortest images
+                nsc = len(ph.supercell)
+                lat = L0 @ np.array(cs["S"], float).T.T if False else np.array(ph.supercell.cell) @ np.linalg.inv(F)
+                pos = ph.supercell.scaled_positions
+                for i in range(nsc):
+                    for j in range(nsc):
+                        if i == j:
+                            continue
+                        dlt = pos[j] - pos[i]
+                        dlt -= np.rint(dlt)
+                        ds = [(dlt + np.array(t)) @ lat for t in IMG27]
+                        dmin = min(np.linalg.norm(d) for d in ds)
+                        w = np.mean([(d @ u) ** 2 / (d @ d) for d in ds if np.linalg.norm(d) < dmin + 1e-6])
+                        fc[i, j] *= (1 - 6 * sign * e * w)
+                for i in range(nsc):
+                    fc[i, i] = 0
+                    fc[i, i] = -fc[i].sum(axis=0)
+            ph.force_constants = fc
+            return ph
+
+        ph0, php, phm = build(0), build(+1), build(-1)
+        strain = (php.primitive.volume - phm.primitive.volume) / ph0.primitive.volume
+        fac = ph0.unit_conversion_factor
+        flags = dict(orthonormal=True, diagonal=True, perMode=True, split=True, lifted=False)
+        worst = dict(orthonormal=0.0, diagonal=0.0, perMode=0.0, split=0.0)
+        nsets = 0
+
+        def judge(qpts, eigvecs, gammas, where):
+            nonlocal nsets
+            from phonopy.phonon.degeneracy import degenerate_sets
+            for q, vecs, gam in zip(qpts, eigvecs, gammas):
+                with quiet():
+                    for p_ in (ph0, php, phm):
+                        p_.run_qpoints([q], with_dynamical_matrices=True)
+                D0 = ph0.get_qpoints_dict()["dynamical_matrices"][0]
+                Dp = php.get_qpoints_dict()["dynamical_matrices"][0]
+                Dmn = phm.get_qpoints_dict()["dynamical_matrices"][0]
+                dD = Dp - Dmn
+                ev = np.linalg.eigvalsh(D0)
+                (evp, vp), (evm, vm) = np.linalg.eigh(Dp), np.linalg.eigh(Dmn)
+                lam_scale = max(abs(ev).max(), 1e-12)
+                for dset in degenerate_sets(ev):
+                    if len(dset) < 2 or ev[dset[0]] < 1e-2 * lam_scale:
+                        continue
+                    # the set must be isolated from its neighbours (otherwise 'degenerate' is a tolerance artefact)
+                    lo, hi = dset[0], dset[-1]
+                    if (lo > 0 and ev[lo] - ev[lo - 1] < 2e-2 * lam_scale) or \
+                            (hi < len(ev) - 1 and ev[hi + 1] - ev[hi] < 2e-2 * lam_scale) or ev[hi] - ev[lo] > 1e-9 * lam_scale:
+                        continue
+                    nsets += 1
+                    E = vecs[:, dset]
+                    lam = ev[dset].mean()
+                    r1 = max(np.abs(E.conj().T @ E - np.eye(len(dset))).max(), np.abs(D0 @ E - lam * E).max() / lam_scale)
+                    Mproj = E.conj().T @ dD @ E
+                    offd = np.abs(Mproj - np.diag(np.diag(Mproj))).max()
+                    sc_ = max(np.abs(dD).max(), 1e-300)
+                    per = np.abs(gam[dset] - (-np.real(np.diag(Mproj)) / strain / lam / 2)).max() / \
+                        max(np.abs(gam[dset]).max(), 1e-12)
+                    # splitting of the eigenvalues between V- and V+, each reported mode followed by its eigenvector
+                    mu = np.real(np.diag(Mproj))
+                    fd = np.array([evp[np.argmax(np.abs(vp.conj().T @ E[:, k_]))] - evm[np.argmax(np.abs(vm.conj().T @ E[:, k_]))]
+                                   for k_ in range(len(dset))])
+                    spl = np.abs(fd - mu).max() / max(np.abs(mu).max(), 1e-300)
+                    worst["orthonormal"] = max(worst["orthonormal"], r1)
+                    worst["diagonal"] = max(worst["diagonal"], offd / sc_)
+                    worst["perMode"] = max(worst["perMode"], per)
+                    worst["split"] = max(worst["split"], spl)
+                    if (mu.max() - mu.min()) > 1e-2 * np.abs(mu).max():
+                        flags["lifted"] = True
+                    bad = []
+                    if not (r1 <= 1e-9):
+                        flags["orthonormal"] = False
+                        bad.append("orthonormal")
+                    if not (offd <= 1e-9 * sc_):
+                        flags["diagonal"] = False
+                        bad.append("diagonal")
+                    if not (per <= 1e-8):
+                        flags["perMode"] = False
+                        bad.append("perMode")
+                    if not (spl <= 5 * abs(strain)):
+                        flags["split"] = False
+                        bad.append("split")
+                    ctx.count(("gru-nonhydro", cs["id"], where, tuple(np.round(q, 6)), tuple(dset)))
+                    for b_ in bad:
+                        ctx.violation("gruneisen:nonhydrostatic:" + b_,
+                                      "non-hydrostatic volume triple, degenerate set: the reported Grueneisen parameter "
+                                      "of a mode is not -(V/2w^2)<e|dD/dV|e> of the reported eigenvector (%s)" % b_,
+                                      dict(case=cs, where=where, q=q, modes=dset, reported_gamma=gam[dset],
+                                           from_reported_vectors=-np.real(np.diag(Mproj)) / strain / lam / 2,
+                                           from_split_eigenvalues=-fd / strain / lam / 2, offdiag=float(offd),
+                                           strain=float(strain)))
+
+        with quiet():
+            gr = PhonopyGruneisen(ph0, php, phm)
+            gr.set_mesh(cs["mesh"], is_gamma_center=True, is_mesh_symmetry=False)
+        qpts, _, _, vecs, gam = gr.get_mesh()
+        judge(qpts, vecs, gam, "mesh")
+        path = [[[0.1, 0.0, 0.0], [0.3, 0.0, 0.0], [0.5, 0.0, 0.0]], [[0.1, 0.1, 0.1], [0.2, 0.2, 0.2], [0.4, 0.4, 0.4]]]
+        if cs["pm"] == "F":      # Gamma-X and Gamma-L of the conventional cell in primitive coordinates
+            path = [[[0.0, 0.1, 0.1], [0.0, 0.3, 0.3], [0.0, 0.5, 0.5]], [[0.1, 0.1, 0.1], [0.2, 0.2, 0.2], [0.4, 0.4, 0.4]]]
+        if cs["pm"] == "I":
+            path = [[[-0.1, 0.1, 0.1], [-0.2, 0.2, 0.2], [-0.4, 0.4, 0.4]], [[0.05, 0.05, 0.05], [0.1, 0.1, 0.1], [0.2, 0.2, 0.2]]]
+        with quiet():
+            gr.set_band_structure(path)
+        bq, _, _, bvec, bgam = gr.get_band_structure()
+        for seg in range(len(path)):
+            judge(np.array(bq[seg]), np.array(bvec[seg]), np.array(bgam[seg]), "band")
+        for k_, v_ in worst.items():
+            upd(margins, "gruneisen_nonhydro_" + k_, v_)
+        if nsets == 0:
+            raise tlcmod.MachineryError("non-hydrostatic Grueneisen: no isolated degenerate set met (vacuous)")
+        observed.append(dict(id=cs["id"], **flags))
+        ctx.extra.setdefault("gruneisen_nonhydrostatic_sets", {})[cs["entry"]] = nsets
+    mc = ("---- MODULE MC_GrD ----\nEXTENDS GruneisenDegenerate\nMCObservedNH == {%s}\n====\n"
+          % ", ".join(to_tla(o) for o in observed))
+    res = ctx.tlc("MC_GrD", cfg_text=CFG_GRD, extra_files={"MC_GrD.tla": mc}, requirement=False,
+                  extra_args=("-continue",), workers=2)
+    for nm in sorted(set(n for n, _ in res.violations)):
+        if nm == "ImplNH" and all(all(o[k] for k in ("orthonormal", "diagonal", "perMode", "split")) for o in observed):
+            raise tlcmod.MachineryError("non-hydrostatic Grueneisen: no degenerate set was lifted by dD (vacuous)")
+        ctx.violation("gruneisen:nonhydrostatic:" + nm, "GruneisenDegenerate.tla %s fails on recorded results" % nm,
                       dict(invariant=nm, observed=observed))
     ctx.traces += len(observed)
